@@ -977,14 +977,14 @@ func SplitMrt(data []byte, atEOF bool) (advance int, token []byte, err error) {
 	if atEOF && len(data) == 0 {
 		return 0, nil, nil
 	}
-	if cap(data) < MRT_COMMON_HEADER_LEN { // read more
+	if len(data) < MRT_COMMON_HEADER_LEN { // read more
 		return 0, nil, nil
 	}
 	hdr, errh := ParseHeader(data[:MRT_COMMON_HEADER_LEN])
 	if errh != nil {
 		return 0, nil, errh
 	}
-	totlen := int(hdr.Len + MRT_COMMON_HEADER_LEN)
+	totlen := int(hdr.Len) + MRT_COMMON_HEADER_LEN
 	if len(data) < totlen { // need to read more
 		return 0, nil, nil
 	}
